@@ -25,8 +25,9 @@ VARIANTS = {
     "asan-nopool": ("gcc", ["-O1", "-g", "-DDISABLE_OBJECT_POOL"] + SAN, SAN),
     # parser with tracing (no NDEBUG) is the default in all variants: CMake's
     # Release adds -DNDEBUG, but we never need that.
-    "o2": ("gcc", ["-O2", "-g0", "-ffunction-sections", "-fdata-sections"], []),
-    "o2-nopool": ("gcc", ["-O2", "-g0", "-ffunction-sections", "-fdata-sections",
+    # as shipped (CMake Release: -O2/-O3 -DNDEBUG), one section per function / object
+    "o2": ("gcc", ["-O2", "-g0", "-DNDEBUG", "-ffunction-sections", "-fdata-sections"], []),
+    "o2-nopool": ("gcc", ["-O2", "-g0", "-DNDEBUG", "-ffunction-sections", "-fdata-sections",
                           "-DDISABLE_OBJECT_POOL"], []),
     "o0-su": ("gcc", ["-O0", "-g0", "-fstack-usage"], []),
     "tsan-nopool": ("gcc", ["-O1", "-g", "-DDISABLE_OBJECT_POOL", "-fsanitize=thread"],
